@@ -284,8 +284,8 @@ def ident_cases(ctx, n_q, n_t):
 def run_C09(ctx):
     V.build()
     q = ctx.quick()
-    cases = ident_cases(ctx, 120, 2400)
-    ordinary = E.strong_cases(ctx, 25, 400) + E.ext_cases(ctx, 25, 400)
+    cases = ident_cases(ctx, 120, 700)
+    ordinary = E.strong_cases(ctx, 25, 150) + E.ext_cases(ctx, 25, 150)
     recs, violations, st = problem_records(ctx, cases + ordinary)
     usable, skipped = param_problems(ctx, recs)
     if q and len(usable) > 420:
@@ -302,7 +302,7 @@ def run_C09(ctx):
 def run_C12(ctx):
     V.build()
     q = ctx.quick()
-    cases = E.strong_cases(ctx, 30, 500) + E.ext_cases(ctx, 30, 500) + ident_cases(ctx, 40, 600)
+    cases = E.strong_cases(ctx, 30, 200) + E.ext_cases(ctx, 30, 200) + ident_cases(ctx, 40, 250)
     recs, violations, st = problem_records(ctx, cases)
     usable, skipped = param_problems(ctx, recs)
     if q and len(usable) > 360:
